@@ -244,7 +244,7 @@ def judgeLine (s : JState) (line : String) : JState × String :=
   let s0 : JState := match words inp with | "cfg" :: _ => {} | _ => s
   match pre, parseObserved obs with
   | some pre, some evs =>
-    let (s', verdict) := (pre ++ evs ++ post).foldl (fun (acc : JState × Option String) e =>
+    let (s', verdict) := (Ev.quiet :: pre ++ evs ++ post).foldl (fun (acc : JState × Option String) e =>
       match acc.2 with
       | some _ => acc
       | none => judgeEv acc.1 e) (s0, none)
